@@ -1,10 +1,10 @@
 package props
 
 import (
-	"regexp"
 	"go/ast"
 	"go/token"
 	"go/types"
+	"regexp"
 	"strings"
 
 	"golang.org/x/tools/go/packages"
